@@ -47,6 +47,9 @@ type Case struct {
 	DieAfterMs int        `json:"die_after_ms"` // >0: ... or after this delay in steady state
 	// SlowWriteMs holds every heart-beat write of the holder up for that long (what a loaded disk does), deterministically
 	SlowWriteMs int `json:"slow_heartbeat_write_ms,omitempty"`
+	// Reacquire: the holder first acquires and releases the lock once with the same lock object, then acquires it again
+	// (the acquisition that is observed): a lock object is not a one-shot thing
+	Reacquire bool `json:"reacquire_with_same_object,omitempty"`
 }
 
 // beat is one heart-beat of the holder: start = its open was issued, end = its time stamp (chtimes) was completed;
@@ -154,7 +157,7 @@ type verdict struct {
 	at    time.Time // when the observer's decisive stat was served
 	after time.Time // when the call returned
 	probe probe
-	plain bool // TryLock without override: it judges nothing, it only succeeds when the directory is gone
+	plain bool // an acquisition that removed nothing itself (TryLock without override, or with it but finding no directory): it judges nothing, it only succeeds when the directory is gone
 }
 
 func startLoad(box *fsbox.Box, level int, stop <-chan struct{}) *sync.WaitGroup {
@@ -209,7 +212,19 @@ func startLoad(box *fsbox.Box, level int, stop <-chan struct{}) *sync.WaitGroup 
 	return &wg
 }
 
+// checkCase runs one case. A holder without any heart-beat attempt is only *suspected* by a single run (on an overloaded
+// machine a freshly created goroutine may not run for a fifth of a second while the stall monitor's timer-driven one
+// does): the case is then run again, and only a suspicion confirmed three times in a row is a finding.
 func checkCase(t ev.T, test string, c Case) {
+	if !runCase(t, test, c, false) {
+		return
+	}
+	if runCase(t, test, c, false) {
+		runCase(t, test, c, true)
+	}
+}
+
+func runCase(t ev.T, test string, c Case, confirmed bool) (suspectNoHeartBeat bool) {
 	box := fsbox.New(c.Backend)
 	defer box.Close()
 	dir := box.Path("locks")
@@ -218,10 +233,12 @@ func checkCase(t ev.T, test string, c Case) {
 	w.hbPath = filepath.Join(w.lockDir, "L.lock")
 	box.Backend.KeepOps(false)
 	box.Backend.After = w.after
-	if c.SlowWriteMs > 0 {
-		box.Backend.Before = func(op *fsx.Op) {
+	var hbIssued atomic.Int64 // heart-beat writes the holder has at least begun (counted when issued, whatever the disk does next)
+	box.Backend.Before = func(op *fsx.Op) {
+		if op.Client == "holder" && op.Path == w.hbPath && op.Kind == "openfile" {
+			hbIssued.Add(1)
 			// (the open is held up rather than the write: opening with O_TRUNC already refreshes the kernel's time stamp)
-			if op.Client == "holder" && op.Path == w.hbPath && op.Kind == "openfile" {
+			if c.SlowWriteMs > 0 {
 				time.Sleep(time.Duration(c.SlowWriteMs) * time.Millisecond)
 			}
 		}
@@ -229,9 +246,11 @@ func checkCase(t ev.T, test string, c Case) {
 	hClient, hFS := box.NewClient("holder")
 	var holderOps atomic.Int64
 	var diedAt atomic.Int64
+	var armed atomic.Bool // death points count from the observed acquisition on
+	armed.Store(!c.Reacquire)
 	if c.DieAtOp > 0 {
 		box.Backend.FaultAt = func(op *fsx.Op, _ int64) *fsx.Fault {
-			if op.Client == "holder" && diedAt.Load() == 0 {
+			if op.Client == "holder" && diedAt.Load() == 0 && armed.Load() {
 				if holderOps.Add(1) == int64(c.DieAtOp) {
 					diedAt.Store(time.Now().UnixNano())
 					return &fsx.Fault{Kind: "revoke"}
@@ -259,6 +278,26 @@ func checkCase(t ev.T, test string, c Case) {
 		}
 	}()
 	holder := filesystem.NewGenericRemoteLockFile(hFS.(*filesystem.VFS), "L", dir, false)
+	if c.Reacquire {
+		if err := holder.TryLock(life); err != nil {
+			ev.Fail(t, prop, test, c, "the holder could not acquire a free lock (first acquisition): %v", err)
+		}
+		time.Sleep(3 * time.Millisecond)
+		uctx, ucancel := context.WithTimeout(context.Background(), 5*time.Second)
+		uerr := holder.Unlock(uctx)
+		ucancel()
+		if uerr != nil {
+			ev.Fail(t, prop, test, c, "the holder could not release its lock (first acquisition): %v", uerr)
+		}
+		time.Sleep(2 * time.Millisecond)
+		// forget what was recorded about the first acquisition
+		w.mu.Lock()
+		w.beats, w.dirStamp, w.lastHBOp = nil, time.Time{}, time.Time{}
+		w.mu.Unlock()
+		holderOps.Store(0)
+		hbIssued.Store(0)
+		armed.Store(true)
+	}
 	var herr error
 	switch c.Acquire {
 	case "lock":
@@ -324,7 +363,8 @@ func checkCase(t ev.T, test string, c Case) {
 					}
 				}
 				w.mu.Lock()
-				if len(w.removed[name]) > removedBefore && what == "" {
+				removedByMe := len(w.removed[name]) > removedBefore
+				if removedByMe && what == "" {
 					what = "removed the lock directory (" + o.Action + ")"
 				}
 				at := w.lastStat[name]
@@ -334,7 +374,7 @@ func checkCase(t ev.T, test string, c Case) {
 				ocancel()
 				if what != "" {
 					vmu.Lock()
-					verdicts = append(verdicts, verdict{by: name, what: what + " [decisive probe: " + detail + "]", at: at, after: time.Now(), probe: pr, plain: o.Action == "trylock"})
+					verdicts = append(verdicts, verdict{by: name, what: what + " [decisive probe: " + detail + "]", at: at, after: time.Now(), probe: pr, plain: o.Action == "trylock" || (strings.HasPrefix(what, "TryLock") && !removedByMe)})
 					vmu.Unlock()
 					if strings.HasPrefix(what, "TryLock") {
 						return
@@ -430,6 +470,17 @@ func checkCase(t ev.T, test string, c Case) {
 			inconclusive = false
 		}
 	}
+	// ... and it is there at all: a holder that has been alive for two periods without even beginning to write a sign of life
+	// has no heart-beat (this does not depend on the disk: the attempt is counted when it is issued)
+	if held := time.Since(acquired); !dead && herr == nil && held >= 2*period-5*time.Millisecond && hbIssued.Load() == 0 && time.Duration(maxGap.Load()) < 15*time.Millisecond {
+		suspectNoHeartBeat = true
+		if confirmed {
+			findings = append([]finding{{fmt.Sprintf("the live holder has held the lock for %v without beginning a single heart-beat write (third run in a row)", held.Round(time.Millisecond))}}, findings...)
+			inconclusive = false
+		} else {
+			ev.Class("no heart-beat attempt seen in one run (to be confirmed)")
+		}
+	}
 	if inconclusive {
 		ev.Inconclusive("heart-beat or observer held up for more than a period (machine load)")
 	} else if len(findings) > 0 {
@@ -493,6 +544,7 @@ func checkCase(t ev.T, test string, c Case) {
 	}
 	_ = fresh.Unlock(rctx)
 	ev.Class("dead-holder-recovered")
+	return
 }
 
 func (w *world) describeBeats(acquired time.Time) string {
@@ -528,6 +580,7 @@ func genCase(t *rapid.T) Case {
 	if rapid.IntRange(0, 4).Draw(t, "slow-writes") == 0 {
 		c.SlowWriteMs = rapid.SampledFrom([]int{10, 35, 45}).Draw(t, "slow-write-ms")
 	}
+	c.Reacquire = rapid.IntRange(0, 3).Draw(t, "reacquire") == 0
 	switch rapid.IntRange(0, 3).Draw(t, "death") {
 	case 0:
 		c.DieAtOp = rapid.IntRange(1, 8).Draw(t, "die-at-op")
